@@ -1,6 +1,9 @@
 package main
 
 import (
+	"github.com/grailbio/bigslice/sliceio"
+	"context"
+	"bytes"
 	"fmt"
 	"reflect"
 	"sort"
@@ -171,6 +174,27 @@ func c11op(s *c11st, op []string) (ret string) {
 	case "copy":
 		n := frame.Copy(fr(1), fr(2))
 		return itoa(n)
+	case "codec":
+		// the view's rows written by the row-stream encoder (custom-codec columns through Frame.Encode with the view's
+		// range, the others through Frame.Value) and decoded into a fresh frame
+		f := fr(1)
+		var buf bytes.Buffer
+		if err := sliceio.NewEncodingWriter(&buf).Write(context.Background(), f); err != nil {
+			return "encerr"
+		}
+		ts := make(c11types, len(s.kinds))
+		for i, k := range s.kinds {
+			ts[i] = kindType(k)
+		}
+		g := frame.Make(ts, f.Len(), f.Len())
+		if f.Len() > 0 {
+			n, err := sliceio.NewDecodingReader(&buf).Read(context.Background(), g)
+			if err != nil || n != f.Len() {
+				return fmt.Sprintf("decerr(%d,%v)", n, err)
+			}
+		}
+		s.push(g)
+		return "ok"
 	case "append":
 		g := frame.AppendFrame(fr(1), fr(2))
 		s.push(g)
